@@ -74,7 +74,7 @@ import (
 )
 
 const (
-	stuck       = 20 * time.Second
+	stuck       = 8 * time.Second
 	earlyWindow = 5 * time.Millisecond
 	staleMetric = "libhoney_upstream_stale_dispatch_time"
 )
@@ -611,13 +611,13 @@ func (r *runner) unpark(w int) { close(r.rel[w]); r.rel[w] = nil }
 
 // settle waits until the fake Honeycomb has everything that was dispatched.
 func (r *runner) settle() {
+	if r.tx.stopped {
+		return // Stop has waited for its dispatch pool: whatever is going to arrive has arrived
+	}
 	waitFor("dispatched batches to arrive", func() bool {
-		pend := 0
-		if !r.tx.stopped {
-			pend = transmit.VerifShutdownPending(r.dt)
-			if pend < 0 {
-				return false
-			}
+		pend := transmit.VerifShutdownPending(r.dt)
+		if pend < 0 {
+			return false
 		}
 		r.tx.mu.Lock()
 		ok := r.tx.ok
@@ -859,16 +859,13 @@ func (r *runner) stopCollector() int {
 			r.unpark(w)
 		}
 	}
-	waitFor("workers to exit", func() bool {
-		select {
-		case <-r.wdone:
-			return true
-		case <-done:
-			return true
-		default:
-			return false
-		}
-	})
+	// workersWG.Wait() has returned when Stop stops worker 0's decision cache (hook); should the
+	// code under test not do that any more, go on after a while
+	select {
+	case <-r.wdone:
+	case <-done:
+	case <-time.After(100 * time.Millisecond):
+	}
 	early := 0
 	if stall {
 		if r.pendingT > 0 {
@@ -915,7 +912,7 @@ func (r *runner) stopTx() int {
 func (r *runner) leftover() string {
 	r.tr.CloseIdleConnections()
 	var names []string
-	deadline := time.Now().Add(2 * time.Second)
+	deadline := time.Now().Add(time.Second)
 	for {
 		names = names[:0]
 		seen := map[string]bool{}
